@@ -157,15 +157,42 @@ def run(prog: Program, rep, thorough: bool) -> None:
         rep.fail('C11.R1', tc.path, stores[0].lineno, tr.qualname, f'store:{stores[0].attr}',
                  f'trajectory() stores self.{stores[0].attr} after the per-shot state was derived: the request can '
                  f'change what is computed')
-    calls = [c for c in ast.walk(tr.node) if isinstance(c, ast.Call) and norm(c.func) == f'{me}._integrate']
+    # forwarding, decided on values: evaluate trajectory() with the two callees captured
+    from .. import algebra as A
+    from ..abseval import Const, Ctx, Evaluator, Scalar, State, S, SymObj, Undecided
+    got: Dict[str, list] = {'init': [], 'integrate': []}
+
+    def h_init(ev_, func, args, kwargs, st_, self_val):
+        got['init'].append((list(args), dict(kwargs)))
+        return Const(None)
+
+    def h_int(ev_, func, args, kwargs, st_, self_val):
+        got['integrate'].append((list(args), dict(kwargs)))
+        return SymObj('rows')
+    evf = Evaluator(prog, hooks={'call:TrajectoryCalc._init_trajectory': h_init, 'call:TrajectoryCalc._integrate': h_int})
+    stf = State()
+    selff = evf.new_inst(stf, prog.cls(C.M_TC, 'TrajectoryCalc'), {})
+    rq = C.mk_quantity(evf, stf, prog, 'Distance', 'Rraw', 'Yard')
+    sq = C.mk_quantity(evf, stf, prog, 'Distance', 'Sraw', 'Meter')
     ok_fw = False
-    if len(calls) == 1 and len(calls[0].args) >= 4:
-        a = calls[0].args
-        shot_p, range_p, step_p = tr.positional[1], tr.positional[2], tr.positional[3]
-        ok_fw = norm(a[0]) == shot_p and norm(a[1]).startswith(f'{range_p} >>') and norm(a[2]).startswith(f'{step_p} >>') \
-            and C.unit_of_expr(prog, tc, a[1].right) == 'Foot' and C.unit_of_expr(prog, tc, a[2].right) == 'Foot'
-        init_calls = [c for c in ast.walk(tr.node) if isinstance(c, ast.Call) and norm(c.func) == f'{me}._init_trajectory']
-        ok_fw = ok_fw and len(init_calls) == 1 and [norm(x) for x in init_calls[0].args] == [shot_p]
+    try:
+        evf.call_value(tr, [SymObj('shot'), rq, sq, SymObj('extra'), S('tstep')], self_val=selff, st=stf)
+        get_in = prog.find_method(rq.cls, 'get_in')
+        r_ft = evf.call_value(get_in, [C.enum_val(prog, 'Foot')], self_val=rq, st=stf)[0]
+        s_ft = evf.call_value(get_in, [C.enum_val(prog, 'Foot')], self_val=sq, st=stf)[0]
+        if len(got['init']) >= 1 and got['integrate']:
+            ok_fw = all(len(a_) == 1 and isinstance(a_[0], SymObj) and a_[0].path == 'shot' and not k_
+                        for a_, k_ in got['init'])
+            for a_, k_ in got['integrate']:
+                ia = dict(zip(F.func.positional[1:], a_))
+                ia.update(k_)
+                ok_fw = ok_fw and isinstance(ia.get(F.func.positional[1]), SymObj) \
+                    and isinstance(ia.get(F.func.positional[2]), Scalar) and ia[F.func.positional[2]].rf.equals(r_ft.rf) \
+                    and isinstance(ia.get(F.func.positional[3]), Scalar) and ia[F.func.positional[3]].rf.equals(s_ft.rf)
+                ts_ = ia.get(F.func.positional[5]) if len(F.func.positional) > 5 else None
+                ok_fw = ok_fw and (ts_ is None or (isinstance(ts_, Scalar) and ts_.rf.equals(A.sym('tstep'))))
+    except Undecided:
+        ok_fw = False
     if ok_fw:
         rep.ok('C11.R1', tr.where, 'trajectory(): _init_trajectory(shot) sees the shot only; range and step forwarded in feet')
     else:
